@@ -989,11 +989,8 @@ class ParseContext:
                     if next is None:
                         return False
 
-                    try:
-                        next.groups.index(part)
-                    except IndexError:
-                        if next.name != part:
-                            return False
+                    if part not in next.groups and next.name != part:
+                        return False
 
                     depth -= 1
                 i -= 1
